@@ -106,6 +106,8 @@ type pathExec struct {
 	goroutinesRun   int
 	panicTrace      string
 	noPanicID       string // when set, target panics / unwinding overflow are violations of this id
+	skipFns         map[string]bool // verifrt.SkipCalls
+	decided         map[*smt.Term]bool // branch conditions already asserted on this path
 	branches        int
 	freshN          int
 	timeVars        []*smt.Term
@@ -170,6 +172,18 @@ func (fr *frame) decide(cond *smt.Term, tag string) bool {
 		panic(specAbort{})
 	}
 	c := px.ctx
+	// a condition already decided on this path (terms are interned, so the same comparison of the
+	// same values is the same term) has only one feasible side: no decision, no query
+	if v, ok := px.decided[cond]; ok {
+		return v
+	}
+	remember := func(v bool) {
+		if px.decided == nil {
+			px.decided = map[*smt.Term]bool{}
+		}
+		px.decided[cond] = v
+		px.decided[c.Not(cond)] = !v
+	}
 	if px.inPrefix() {
 		d := px.prefix[len(px.trace)]
 		if d.Kind != 'b' {
@@ -182,6 +196,7 @@ func (fr *frame) decide(cond *smt.Term, tag string) bool {
 			px.assertPC(c.Not(cond))
 		}
 		px.model = nil
+		remember(d.Val == 1)
 		return d.Val == 1
 	}
 	px.branches++
@@ -233,6 +248,7 @@ func (fr *frame) decide(cond *smt.Term, tag string) bool {
 	} else {
 		px.assertPC(c.Not(cond))
 	}
+	remember(side)
 	return side
 }
 
